@@ -402,6 +402,44 @@ fn byte_level() -> R {
     Ok(())
 }
 
+/// the one tolerated alias: a leaf tagged #6.24 is read as #6.201 - with the very same payload, whatever it is
+fn legacy_alias() -> R {
+    let vals: Vec<(&str, CBOR)> = vec![
+        ("text", "hello".into()), ("integer", 42u8.into()), ("bytes", CBOR::to_byte_string([1u8, 2, 3])),
+        ("bytes that are one encoded item (h'01')", CBOR::to_byte_string([0x01u8])), ("bytes that are one encoded item (h'182a')", CBOR::to_byte_string([0x18u8, 0x2a])),
+        ("bytes that are encoded text", CBOR::to_byte_string([0x61u8, 0x61])), ("bytes holding a serialized envelope", CBOR::to_byte_string(Envelope::new("inner").add_assertion("p", "o").tagged_cbor().to_cbor_data())),
+        ("bytes holding a tagged leaf", CBOR::to_byte_string(CBOR::to_tagged_value(201u64, 7u8).to_cbor_data())), ("array", vec![1u8, 2].into()), ("tagged", CBOR::to_tagged_value(100u64, "x")),
+    ];
+    let (name, v) = &vals[choice(vals.len())];
+    let pos = choice(4);
+    // the envelope as the library writes it, and the same bytes with that leaf's tag 201 replaced by 24
+    let leaf201 = CBOR::to_tagged_value(201u64, v.clone());
+    let leaf24 = CBOR::to_tagged_value(24u64, v.clone());
+    let other = |t: &str| -> CBOR { CBOR::to_tagged_value(201u64, t) };
+    let mk = |leaf: &CBOR| -> CBOR {
+        match pos {
+            0 => leaf.clone(),
+            1 => arr(vec![leaf.clone(), { let mut m = Map::new(); m.insert(other("p"), other("o")); m.into() }]),
+            2 => arr(vec![other("s"), { let mut m = Map::new(); m.insert(other("p"), leaf.clone()); m.into() }]),
+            _ => CBOR::to_tagged_value(200u64, leaf.clone()),
+        }
+    };
+    let want = CBOR::to_tagged_value(200u64, mk(&leaf201)).to_cbor_data();
+    let input = CBOR::to_tagged_value(200u64, mk(&leaf24)).to_cbor_data();
+    rt::note(format!("{} at position {}", name, pos));
+    op("try_from_cbor_data (#6.24 leaf)");
+    let canonical = must!(Envelope::try_from_cbor_data(want.clone()), "decoder rejected a valid envelope");
+    ensure!(bytes(&canonical) == want, "re-encoding differs", "{}", name);
+    match Envelope::try_from_cbor_data(input) {
+        Err(_) => {} // refusing the deprecated tag altogether is allowed
+        Ok(x) => {
+            ensure!(bytes(&x) == want, "#6.24 leaf not read as the same #6.201 leaf", "{} at position {}: {}", name, pos, hex::encode(bytes(&x)));
+            ensure!(dg(&x) == dg(&canonical), "#6.24 leaf has another digest than the #6.201 leaf", "{}", name);
+        }
+    }
+    Ok(())
+}
+
 /// top-level malformations and valid encodings
 fn toplevel() -> R {
     let e = build(&n(l(1), vec![a(l(2), l(3)), a(l(4), l(5))]));
@@ -482,6 +520,9 @@ pub fn prop_c06() -> Prop {
                 api: &["try_from_cbor_data", "from_untagged_cbor", "Assertion::try_from(CBOR)", "new_with_assertions"] },
             Scenario { name: "byte_level", f: byte_level, thorough_only: false,
                 bounds: "valid encoding (<=120 bytes quick / <=200 thorough) of every shape of <=4 (5) elements + 3 larger / obscured ones x every byte position x {every single-bit flip, deletion, insertion of 9 values, overwrite with 17 head / tag / break values} (choice variables, exhaustively forked). dcbor's byte decoder is executed, not solver-decided; multi-byte mutations and random bytes are outside",
+                api: &["try_from_cbor_data"] },
+            Scenario { name: "legacy_alias", f: legacy_alias, thorough_only: false,
+                bounds: "10 leaf payloads (text, integer, bytes, byte strings that are themselves one encoded item / a serialized envelope / a tagged leaf, array, tagged) x 4 positions, the leaf tagged #6.24 instead of #6.201: decode refuses, or yields exactly the #6.201 envelope",
                 api: &["try_from_cbor_data"] },
             Scenario { name: "toplevel", f: toplevel, thorough_only: false,
                 bounds: "19 top-level / byte-level cases (untagged, wrong tag, empty, truncated, trailing byte, non-minimal and indefinite heads, non-envelope simple values, non-canonical known value, non-deterministic CBOR inside a leaf)",
